@@ -616,7 +616,12 @@ but no other interpretation is applied
 
                 try:
                     if requiredVersions and productName in requiredVersions:
-                        product = Eups.findProduct(productName, requiredVersions[productName])
+                        # the version listed for this name, looked up where it was found: the running flavor,
+                        # then the fall-back flavors
+                        for flavor in utils.Flavor().getFallbackFlavors(Eups.flavor, includeMe=True):
+                            product = Eups.findProduct(productName, requiredVersions[productName], flavor=flavor)
+                            if product:
+                                break
                     else:
                         # look where Eups.setup looks: the running flavor, then the fall-back flavors
                         for flavor in utils.Flavor().getFallbackFlavors(Eups.flavor, includeMe=True):
